@@ -43,15 +43,20 @@ def exc_factory(name):
 
 
 class World(object):
-    def __init__(self, budget=300000, resolve=True, dry_timeout=60.0):
+    def __init__(self, budget=300000, resolve=True, dry_timeout=60.0, survey=None, survey_in=None):
         import mpmath
         from simkit import env
         self.mpmath = mpmath
-        self.mon = Monitor(env.pkg_dir())
-        self.mon.install()
+        self.mon = Monitor.get(env.pkg_dir())
         self.budget = budget
         self.resolve = resolve
         self.dry_timeout = dry_timeout
+        # pass A ("survey"): faults are not injected; per-step event counts are
+        # recorded here so that pass B can place its faults without a dry run
+        # per step (fork is expensive in this sandbox).  survey_in: counts from
+        # pass A handed to pass B.
+        self.survey = survey
+        self.survey_in = survey_in
         self.actors = {'mp': mpmath.mp, 'iv': mpmath.iv, 'fp': mpmath.fp}
         mpmath.mp._sim_name = 'mp'
         mpmath.iv._sim_name = 'iv'
@@ -315,11 +320,14 @@ class World(object):
         if not fault or fault.get('resolved'):
             return
         kind = fault['kind']
-        if kind == 'F1' and 'k' in fault:
+        if kind in ('F1', 'F4') and 'k' in fault:
             fault['resolved'] = True
             self._apply_f1(step, fault)
             return
-        d = self._dry(step)
+        if self.survey_in is not None:
+            d = self.survey_in.get(step.get('id'))
+        else:
+            d = self._dry(step)
         fault['resolved'] = True
         if d is None:
             fault['void'] = 'dry-run failed'
@@ -352,7 +360,7 @@ class World(object):
                 if pl == 'late':
                     u = u ** (1.0 / 3.0)
                 fault['k'] = 1 + int(u * n)
-        elif kind == 'F1':
+        elif kind in ('F1', 'F4'):
             cbs = d['cb']
             tot = cbs[fault.get('slot', 0)] if cbs and fault.get('slot', 0) < len(cbs) else 0
             if tot < 1:
@@ -367,7 +375,7 @@ class World(object):
         slot = fault.get('slot', 0)
         cbs = [s for s in _walk_specs(step) if s.get('t') == 'cb']
         if slot < len(cbs):
-            sh = {'k': fault['k'], 'act': fault.get('act', 'raise')}
+            sh = {'k': fault['k'], 'act': fault.get('act', 'nested' if fault['kind'] == 'F4' else 'raise')}
             if 'step' in fault:
                 sh['step'] = fault['step']
             cbs[slot]['shim'] = sh
@@ -376,9 +384,11 @@ class World(object):
         """Execute a call/stmt step, with its fault if any.  Returns a record."""
         sid = step.get('id', 0)
         fault = step.get('fault')
+        if self.survey is not None:
+            return self._survey_leaf(step, fault)
         if fault and self.resolve and not fault.get('resolved'):
             self.resolve_fault(step)
-        elif fault and fault.get('resolved') and fault['kind'] == 'F1' and not fault.get('void'):
+        elif fault and fault.get('resolved') and fault['kind'] in ('F1', 'F4') and not fault.get('void'):
             self._apply_f1(step, fault)
         f2 = f3 = None
         if fault and not fault.get('void'):
@@ -423,6 +433,52 @@ class World(object):
             rec['status'] = 'absorbed' if fired else 'ok'
             if fired:
                 self.stats['absorbed'] += 1
+            if 'id' in step:
+                self.vals[sid] = res
+        self.log.append(rec)
+        return rec, res
+
+    def _survey_leaf(self, step, fault):
+        """Pass A: execute fault-free; record the event counts a fault would
+        be placed against."""
+        sid = step.get('id', 0)
+        st = _strip_fault(step) if fault else step
+        want_lines = bool(fault) and fault['kind'] == 'F3' and not fault.get('resolved')
+        self.pin_random(sid)
+        self.shims = []
+        self.faults_noted = []
+        rec = {'id': sid, 'kind': step['kind'], 'actor': step.get('actor', 'mp'),
+               'op': step.get('op') or ('stmt:' + step.get('src', '')[:60])}
+        try:
+            th = self.thunk(st)
+        except BaseException as e:
+            rec['status'] = 'argerror'
+            rec['exc'] = codec.enc_exc(e)
+            self.log.append(rec)
+            return rec, None
+        res, exc, info = self.guarded(th, budget=self.budget, collect=want_lines, lines=want_lines)
+        if fault and not fault.get('resolved'):
+            sites = None
+            if want_lines:
+                sites = sorted((k[0], k[1], v[0], v[1]) for k, v in self.mon.sites.items())
+            self.survey[sid] = {'starts': info['starts'], 'lines': info['lines'], 'sites': sites,
+                                'cb': [s.calls for s in self.shims]}
+        self.stats['steps'] += 1
+        self.stats['starts'] += info['starts']
+        self.stats['lines'] += info['lines']
+        rec['starts'] = info['starts']
+        fired = info['fired']          # only F6 can fire here
+        if fired:
+            rec['fired'] = fired
+            self.stats['fired'][fired['kind']] = self.stats['fired'].get(fired['kind'], 0) + 1
+            self.stats['budget'] += 1
+        if exc is not None:
+            rec['exc'] = codec.enc_exc(exc)
+            rec['status'] = 'faulted' if fired else 'raised'
+            if not fired:
+                self.stats['raised_nat'] += 1
+        else:
+            rec['status'] = 'ok'
             if 'id' in step:
                 self.vals[sid] = res
         self.log.append(rec)
